@@ -33,12 +33,12 @@ class P:
             d = rnd.choice([1, 2, 2, 3])
             a, ca = render(ss, rnd.getrandbits(48), d, rnd.random() < 0.5)
             b, cb = render(ss, rnd.getrandbits(48), d, True)
-            cases.append("%s\t%s\t%s\t%s" % (hx(a), ",".join(hx(x) for x in ca), hx(b), ",".join(hx(x) for x in cb)))
+            cases.append("%s\t%s\t%s\t%s" % (hx(a), ",".join("c" + hx(x) for x in ca), hx(b), ",".join("c" + hx(x) for x in cb)))
         for a, b in [("a b\n", "a \\\n b\n"), ("a;b\n", "a\nb\n"), ("if a; then b; fi\n", "if a # c\nthen\n\n b\nfi\n"), ("a|b\n", "a |\n\n b\n"),
                      ("a && b\n", "a && # c\n b\n"), ("{ a; }\n", "{\n a\n}\n"), ("for i in 1 2; do a; done\n", "for i in 1 2\ndo\na\ndone\n")]:
             import re
             cb = re.findall(r"#([^\n]*)", b)
-            cases.append("%s\t\t%s\t%s" % (hx(a), hx(b), ",".join(hx(x) for x in cb)))
+            cases.append("%s\t\t%s\t%s" % (hx(a), hx(b), ",".join("c" + hx(x) for x in cb)))
 
         def impl_ok(c, o):
             return o.startswith(("ok", "skip"))
